@@ -45,9 +45,10 @@ class Lock:
         self.fh.close()
 
 
-def snapshot_src():
-    """rsync /repo's working tree (without target/.git) to the scratch dir; returns path"""
-    dst = os.path.join(SCRATCH, 'src')
+def snapshot_src(sub='replay-src'):
+    """rsync /repo's working tree (without target/.git) to a scratch dir; returns path.  The MIR dump and the
+    native replay use different copies (they run under different locks)."""
+    dst = os.path.join(SCRATCH, sub)
     os.makedirs(dst, exist_ok=True)
     subprocess.run(['rsync', '-a', '--delete', '--exclude', 'target', '--exclude', '.git',
                     REPO + '/', dst + '/'], check=True)
@@ -67,7 +68,7 @@ def mir_dump():
         if os.path.exists(mir) and os.path.isdir(srcdir):
             return mir, srcdir, info
         t0 = time.time()
-        src = snapshot_src()
+        src = snapshot_src('mir-src')
         env = dict(os.environ)
         env['CARGO_TARGET_DIR'] = os.path.join(CACHE, 'target-mir')
         env['CARGO_NET_OFFLINE'] = 'true'
